@@ -8,6 +8,7 @@ import suite_sort
 import suite_group
 import suite_heap
 import suite_vec
+import suite_names
 
 
 def c04(rep, tier, seed):
@@ -169,7 +170,23 @@ def c08(rep, tier, seed):
     suite_heap.gen(rep, tier, "tables", ("contents@target", "write_error", "setattr_error"))
 
 
+def c17(rep, tier, seed):
+    rep.assumptions += [
+        "str.lower() is left to Python; the spec sanitises the lower-cased name",
+        "'valid identifier' = str.isidentifier() (keywords such as 'class' pass)",
+        "only ADVERTISED accessors are constrained; extra spellings that also resolve (col<N>_, case variants) are not violations",
+        "the reserved set is read from dir(Vector) / dir(Table) at run time",
+    ]
+    cl = suite_names.C17_GEN + ("accessor_map", "distinct", "lookup", "setattr_error")
+    suite_names.gen(rep, tier, ["sanitize", "accessors"], cl)
+    suite_names.trace(rep, tier, seed, cl)
+    suite_heap.mc(rep, tier, ["names"])
+    suite_heap.devs(rep, ["CmapStale"])
+    suite_heap.gen(rep, tier, "names", cl)
+
+
 CHECKS = {
+    "C17": c17,
     "C05": c05,
     "C06": c06,
     "C07": c07,
